@@ -68,18 +68,28 @@ def mk_rng(seed, pid):
 
 WORDS = ["Red", "Green", "Blue", "Alpha", "Beta", "Gamma", "Delta", "Zed", "Io", "HTTPServer", "Http2", "IoError2",
          "DarkBlack", "X", "Ab", "AbCd", "ABCd", "Foo1Bar", "V2", "Up", "Down", "Left", "Right", "Quit", "Move",
-         "Write", "Lime", "Plum", "Kiwi", "Fig", "Pear"]
+         "Write", "Lime", "Plum", "Kiwi", "Fig", "Pear", "I2c", "Ipv4addr", "V1beta2", "Sha256sum", "A_b", "XMLHttp", "B2B"]
 
 
 def rand_idents(rng, n):
-    out = []
+    """n identifiers whose snake_case method / field names are pairwise distinct (two variants mapping to the same
+    generated name are rejected by rustc and outside every derive's domain)"""
+    out, seen = [], set()
     pool = list(WORDS)
     rng.shuffle(pool)
-    for i in range(n):
-        if i < len(pool):
-            out.append(pool[i])
-        else:
-            out.append("V%d" % i)
+    for w in pool:
+        if len(out) == n:
+            break
+        k = casing.snake_method(w)
+        if k in seen or w.lower() in seen:
+            continue
+        seen.add(k)
+        seen.add(w.lower())
+        out.append(w)
+    i = 0
+    while len(out) < n:
+        out.append("V%d" % i)
+        i += 1
     return out
 
 
